@@ -118,3 +118,19 @@ V('C12', 'tuple-cast-keeps-source-names', 'edb/edgeql/compiler/casts.py', 'edb.e
                 ctx.collection_cast_info.path_elements.pop()
 
         elements.append(irast.TupleElement(name=n, val=val))''', 'C12.R9', '_cast_tuple:tuple@')
+
+# round 4
+V('C12', 'range-common-type-ignores-other', 'edb/schema/types.py',
+  'edb.schema.types.Range.find_common_implicitly_castable_type',
+  '        return other_t.from_subtypes(schema, [subtype])',
+  '        return (MultiRange if self.is_multirange() else Range).from_subtypes(schema, [subtype])',
+  'C12.R10', 'class-from-other')
+V('C12', 'anytype-binding-not-widened', 'edb/edgeql/compiler/polyres.py',
+  'edb.edgeql.compiler.polyres.try_bind_call_args._get_cast_distance',
+  '''            ctx.env.schema, ct = (
+                resolved_poly_base_type.find_common_implicitly_castable_type(''',
+  '''            if resolved.is_collection() and resolved_poly_base_type.implicitly_castable_to(resolved, ctx.env.schema):
+                return s_types.MAX_TYPE_DISTANCE if is_abstract else 0
+            ctx.env.schema, ct = (
+                resolved_poly_base_type.find_common_implicitly_castable_type(''',
+  'C12.R10', 'differing-binding-goes-through-common-type')
